@@ -413,6 +413,62 @@ func (x *Exec) opClosure(op Op, res *OpResult) (string, func()) {
 				}
 			}
 		}
+	case "deliverlate":
+		// like deliver, but the cache update and the choice of the event happen when the task runs (inside an episode: after
+		// other tasks have already read the cache)
+		return "deliverlate", func() {
+			w.mu.Lock()
+			for len(w.q2) == 0 && len(w.q1) > 0 {
+				w.syncPodListerLocked(1)
+			}
+			if len(w.q2) == 0 {
+				w.mu.Unlock()
+				res.NoOp = true
+				return
+			}
+			ev := w.q2[0]
+			w.q2 = w.q2[1:]
+			w.mu.Unlock()
+			if ev.Old != nil {
+				res.Info = ev.Kind + " " + ev.Old.Name
+			}
+			if ev.Kind == "update" {
+				_ = w.Plugin.UpdatePod(ev.Old, ev.New)
+			} else {
+				_ = w.Plugin.DeletePod(ev.Old)
+			}
+			w.mu.Lock()
+			w.CollectUnreleased()
+			w.mu.Unlock()
+		}
+	case "unbindlate":
+		// like unbind, but the queued unbind is picked when the task starts running: inside an episode it can take what an
+		// event delivered earlier in the same episode has queued
+		return "unbindlate", func() {
+			w.mu.Lock()
+			if len(w.Pending) == 0 {
+				w.mu.Unlock()
+				res.NoOp = true
+				return
+			}
+			i := pick(len(w.Pending), op.A)
+			pu := w.Pending[i]
+			w.Pending = append(w.Pending[:i:i], w.Pending[i+1:]...)
+			w.mu.Unlock()
+			res.Info = "unbind " + pu.pod.Name + " uid=" + string(pu.pod.UID)
+			res.UnbindPod = pu.pod
+			res.Before = w.Snap()
+			err := w.Plugin.VerifUnbind(pu.pod)
+			res.Err = err
+			if err != nil {
+				pu.retry++
+				if pu.retry <= 3 {
+					w.mu.Lock()
+					w.Pending = append(w.Pending, pu)
+					w.mu.Unlock()
+				}
+			}
+		}
 	case "resync":
 		return "resync", func() {
 			res.Before = w.Snap()
@@ -923,7 +979,7 @@ func (x *Exec) episode(i int, op Op) *vcore.Failure {
 	for _, sub := range op.Sub {
 		// single-goroutine sources in galaxy-ipam: the configmap poll loop (reload), the resync loop (resync, then
 		// pod-IP sync) and the informer's handler goroutine (event delivery) never run twice at the same time
-		class := map[string]string{"reload": "reload", "resync": "resync", "syncips": "resync", "deliver": "deliver", "fipevent": "fipevent"}[sub.K]
+		class := map[string]string{"reload": "reload", "resync": "resync", "syncips": "resync", "deliver": "deliver", "deliverlate": "deliver", "fipevent": "fipevent"}[sub.K]
 		if class != "" {
 			if single[class] {
 				continue
